@@ -364,7 +364,13 @@ def pair_rule(chk, setup):
         ok = "sel:max" in dec[0].right.tags and "sel:max" not in dec[0].left.tags and "attr:_dt" in dec[0].left.tags
     chk.ob("R-PAIR", c + "[decision]", "interpolate exactly when target_dt < dt (strict)", ok,
            derived="%s" % [(e.op, "target on left" if "sel:max" in e.left.tags else "target on right") for e in dec],
-           loc=dec[0].loc if dec else fi.loc(), inconclusive=not dec)      # the larger of the two steps chosen without max(): not located
+           loc=dec[0].loc if dec else fi.loc(),
+           # the larger of the two steps chosen without max(): the decision is not located -- unless NO comparison with the record's step is made
+           # in the method at all while the interpolation routine is called: then the call is unguarded (it also decimates when the target
+           # step is coarser than the record's), a located wrong instance
+           inconclusive=(not dec) and not (
+               any(e.callee.endswith("interp_array_to_approx_dt") for e in r.events("call", fi.qualname)) and
+               not any(e.op in ("Lt", "Gt", "LtE", "GtE") and ("attr:_dt" in (e.left.tags | e.right.tags)) for e in r.events("compare", fi.qualname))))
     # target_dt = max(T_min / 20, dt / min_dt_ratio), T_min = first non-zero period: decided on the structure, whatever the locals are called
     norm = straightline_env(fi.node.body, Normaliser(), exclude=set(fi.params))
     maxes = [n for n in ast.walk(fi.node) if isinstance(n, ast.Call) and ast.unparse(n.func) in ("max", "np.maximum", "numpy.maximum")
